@@ -113,11 +113,9 @@ func faultyOutput(lines [][]byte, P int, prefix func(i int) string) (out []byte,
 		}
 		fr = append(fr, l...)
 		fr = append(fr, delim)
-		if len(fr) > P {
+		if len(fr) > P && verifrt.Known("C01-KF3") {
 			fired["C01-KF3"] = true
-			if verifrt.Known("C01-KF3") {
-				fr = fr[:P] // the rest of the frame is dropped by Read (copy + deferred Reset)
-			}
+			fr = fr[:P] // the rest of the frame is dropped by Read (copy + deferred Reset)
 		}
 		stream = append(stream, fr...)
 	}
@@ -148,7 +146,7 @@ func run(n, M, P int, plain bool) (content []byte, printed []byte, logCalls int,
 
 	nlog := len(lg.Calls)
 	p := make([]byte, P)
-	for len(sh.VerifLines()) > 0 || len(sh.VerifServerMessages()) > 0 {
+	for len(sh.VerifLines()) > 0 || len(sh.VerifServerMessages()) > 0 || sh.VerifPending() > 0 {
 		k, rerr := sh.Read(p)
 		verifrt.Assert(rerr == nil, "server Read failed")
 		ch.Write(p[:k])
